@@ -664,9 +664,9 @@ def _matmul(rng, kind, force):
         a, b = rvals(rng, kind, sa, 'tiny'), rvals(rng, kind, sb, 'small')
         r = rng.random()
         if r < 0.3:          # integral flag of one / both operands set: the `>>= f` paths instead of np_trunc
-            a = np.round(a)
+            a = np.asarray(np.round(a), dtype=float)
         elif r < 0.5:
-            a, b = np.round(a), np.round(b)
+            a, b = np.asarray(np.round(a), dtype=float), np.asarray(np.round(b), dtype=float)
     if variant == 'same':
         b = a
     inputs = {'a': a} if variant in ('pubB', 'same') else ({'b': b} if variant == 'pubA' else {'a': a, 'b': b})
@@ -762,7 +762,7 @@ def _outer(rng, kind, force):
     sa, sb = rshape(rng, 2, 6, allow0=False), rshape(rng, 2, 6, allow0=False)
     a, b = rvals(rng, kind, sa, 'small' if kind != 'fxp' else 'tiny'), rvals(rng, kind, sb)
     if kind == 'fxp' and rng.random() < 0.4:
-        a = np.round(a)
+        a = np.asarray(np.round(a), dtype=float)
     return {'inputs': {'a': a, 'b': b}, 'call': lambda mpc, S, X: mpc.np_outer(X['a'], X['b']),
             'ref': lambda P: fmod(kind, np.outer(a, b)), 'tol': 1.01 * ULP, 'tol_scalar': 2.02 * ULP,
             'scalar': lambda mpc, S, L: bvec(lambda x, y: x * y, L['a'].reshape(-1, 1), L['b'].reshape(1, -1)),
@@ -776,7 +776,7 @@ def _convolve(rng, kind, force):
     mode = rng.choice(['full', 'full', 'same', 'valid'])
     a, b = rvals(rng, kind, (m,), 'small' if kind != 'fxp' else 'tiny'), rvals(rng, kind, (n,))
     if kind == 'fxp' and rng.random() < 0.4:
-        a = np.round(a)
+        a = np.asarray(np.round(a), dtype=float)
     pubb = rng.random() < 0.25
 
     def call(mpc, S, X):
